@@ -3,16 +3,24 @@ C11 on the execution TREE — "Stop and cancel end the whole execution tree; lat
 Theorems over Mistral.Tree (model of workflow_handler.stop_workflow and its recursion, Workflow.stop /
 _succeed / _fail / _cancel_workflow, _send_result_to_parent_workflow, the dispatcher, run_task, the child-result
 hand-off to plain and with-items parent tasks), for ALL definitions, trees and event histories.
+Histories: EVERY event list (stops, pause and resume commands with their propagation, all deliveries); the
+resume part needs repo patch 20 (without it a nested resume restarts a finished execution:
+corpus/C11/tree_nested_resume_restart.json).
 The model is tied to the real engine by the `tree` stream (harness/tree_stream.py): rows and pending
-deliveries equal after EVERY event.  The `_full_fails` witnesses are replayed on the real engine
-(corpus/C11/tree_*.json).
+deliveries equal after EVERY event.
+
+History: before repo patches 14-16 three statements only held as `_partial` (`cancel_subtree_full_fails`,
+`no_new_task_below_cancelled_full_fails`, `message_kept_full_fails` / `reported_once_full_fails`); the model
+follows the fixed code, the statements are proved at full strength and the former witnesses run as
+regressions on the real engine (corpus/C11/tree_cancel_skips.json, tree_started_below_cancelled.json,
+tree_restop_success.json).
 -/
 import Mistral.Lemmas.Tree
 
 namespace Mistral.Props.C11Tree
 open Mistral Mistral.Tree
 
-/-! ### witnesses (non-vacuity and counterexamples) -/
+/-! ### example trees (non-vacuity; the former counter-witnesses) -/
 
 /-- root w0: task a1 calls w1; w1: task a1 calls w2; w2: one action -/
 def chain3 : Cfg :=
@@ -21,8 +29,8 @@ def chain3 : Cfg :=
 
 /-- three nested executions, all RUNNING -/
 def chain3Up : List Event :=
-  [.startRoot 0, .deliver (.postStartTask 0), .deliver (.rpcStartTask 0),
-   .deliver (.postStartTask 1), .deliver (.rpcStartTask 1)]
+  [.startRoot 0, .deliver (.postStartTask 0 true), .deliver (.rpcStartTask 0 true),
+   .deliver (.postStartTask 1 true), .deliver (.rpcStartTask 1 true)]
 
 /-- root w0: task a1 calls w1; w1: one action -/
 def chain2 : Cfg :=
@@ -39,23 +47,19 @@ theorem stop_holds_requested_state (c : Cfg) (w : World) (a : Nat) (e : Exec) (s
     (he : w.execs[a]? = some e) (hr : e.state = .RUNNING) (hs : s = .SUCCESS ∨ s = .ERROR ∨ s = .CANCELLED) :
     ∃ e', (step c w (.stop a s msg)).execs[a]? = some e' ∧ e'.state = s ∧ e'.info = .op msg ∧
       e'.accepted = true := by
-  have hlt : a < w.execs.length := by
-    rcases Nat.lt_or_ge a w.execs.length with h' | h'
-    · exact h'
-    · rw [List.getElem?_eq_none h'] at he; simp at he
+  have hlt : a < w.execs.length := lt_of_get he
+  have hc : isCompleted e.state = false := by rw [hr]; decide
   rcases hs with rfl | rfl | rfl
   · have hv : (isValidTransition e.state .SUCCESS == some true) = true := by rw [hr]; decide
-    simp only [step, stopOne, he, hv, if_true, Option.getD_some, finish]
-    simp [hlt]
-  · have hv : (isValidTransition e.state .ERROR == some true) = true := by rw [hr]; decide
-    have hc : isCompleted e.state = false := by rw [hr]; decide
     simp only [step, stopOne, he, hv, hc, if_true, finish]
     simp [hlt]
-  · have hc : isCompleted e.state = false := by rw [hr]; decide
-    have hreach : reached w a w.execs.length a = true := by
+  · have hv : (isValidTransition e.state .ERROR == some true) = true := by rw [hr]; decide
+    simp only [step, stopOne, he, hv, hc, if_true, finish]
+    simp [hlt]
+  · have hreach : below w a w.execs.length a = true := by
       cases hn : w.execs.length with
       | zero => omega
-      | succ n => simp [reached]
+      | succ n => simp [below]
     have hh : hit w a a e = true := by simp [hit, hreach, hc]
     simp only [step, hlt, if_true, cancelTx]
     exact ⟨cancelled msg e, by rw [List.getElem?_mapIdx, he]; simp [hh], rfl, rfl, rfl⟩
@@ -65,49 +69,24 @@ example : ((step chain3 (run chain3 chain3Up) (.stop 1 .ERROR "m")).execs.map fu
 
 /-! ### "results of actions that were still running or about to start do not change its state or output" -/
 
-/-- A finished execution never changes state, output or accepted flag afterwards, whatever is delivered
-    or requested (late action results, start-task messages, child results, completion checks, further
-    stop commands), anywhere in the tree, in every reachable state and for every continuation. -/
-theorem finished_is_inert (c : Cfg) (evs evs2 : List Event) (i : Nat) (e : Exec)
-    (he : (run c evs).execs[i]? = some e) (hc : isCompleted e.state = true) :
-    ∃ e', (evs2.foldl (step c) (run c evs)).execs[i]? = some e' ∧ e'.state = e.state ∧ e'.out = e.out ∧
-      e'.accepted = e.accepted := by
-  have hg := good_run c (run c evs) evs2
-  obtain ⟨e', he', hf⟩ := hg.execs i e he
-  obtain ⟨st, o, _⟩ := hf.2.2.2.2 hc
-  have hj := allJ_reachable c evs i e he
-  have hj' : J e' := hg.inv (allJ_reachable c evs) i e' he'
-  refine ⟨e', he', st, ?_, ?_⟩
-  · rcases o with o | ⟨hs, o⟩
-    · exact o
-    · rw [o, (hj.2.2.1 hs).1]
-  · rw [hj.2.2.2 hc, hj'.2.2.2 (by rw [st]; exact hc)]
-
-/-- "... holds the requested final state with the given message" for good: a FAILED or CANCELLED execution
-    keeps its state_info and is never reported to its parent again. -/
-theorem message_kept_partial (c : Cfg) (w : World) (evs2 : List Event) (i : Nat) (e : Exec)
-    (he : w.execs[i]? = some e) (hc : e.state = .ERROR ∨ e.state = .CANCELLED) :
-    ∃ e', (evs2.foldl (step c) w).execs[i]? = some e' ∧ e'.state = e.state ∧ e'.info = e.info ∧
-      e'.sent = e.sent := by
+/-- A finished execution never changes state, output, state_info (the message it was stopped with) or the
+    number of result messages registered for its parent, whatever is delivered or requested afterwards (late
+    action results, start-task messages, child results, completion checks, further stop / pause / resume
+    commands and everything they propagate), anywhere in the tree, in EVERY state and for every continuation.
+    (The `accepted` flag of a failed / cancelled child is reset when its task runs again: `_reset_actions`.) -/
+theorem finished_is_inert (c : Cfg) (w : World) (evs2 : List Event) (i : Nat) (e : Exec)
+    (he : w.execs[i]? = some e) (hc : isCompleted e.state = true) :
+    ∃ e', (evs2.foldl (step c) w).execs[i]? = some e' ∧ e'.state = e.state ∧ e'.out = e.out ∧
+      e'.info = e.info ∧ e'.sent = e.sent := by
   obtain ⟨e', he', hf⟩ := (good_run c w evs2).execs i e he
-  have hcc : isCompleted e.state = true := by rcases hc with h | h <;> rw [h] <;> decide
-  have hne : e.state ≠ .SUCCESS := by rcases hc with h | h <;> rw [h] <;> decide
-  obtain ⟨st, _, r⟩ := hf.2.2.2.2 hcc
-  exact ⟨e', he', st, (r hne).2, (r hne).1⟩
+  obtain ⟨a1, a2, a3, a4⟩ := hf.2.2.2.2 hc
+  exact ⟨e', he', a1, a2, a3, a4⟩
 
-/-- the same for EVERY finished execution is false: `_succeed_workflow` has no is-completed guard, so a second
-    stop(SUCCESS) on a SUCCESS execution overwrites the message of the first (and reports to the parent
-    again).  Replayed on the real engine: corpus/C11/tree_restop_success.json. -/
+/-- the former witness of `message_kept_full_fails`: the second stop(SUCCESS) is ignored -/
 def restop : List Event :=
-  [.startRoot 0, .deliver (.postStartTask 0), .deliver (.rpcStartTask 0), .stop 1 .SUCCESS "m", .stop 1 .SUCCESS "n"]
+  [.startRoot 0, .deliver (.postStartTask 0 true), .deliver (.rpcStartTask 0 true), .stop 1 .SUCCESS "m", .stop 1 .SUCCESS "n"]
 
-theorem message_kept_full_fails :
-    ¬ (∀ (c : Cfg) (evs : List Event) (ev : Event) (i : Nat) (s : St) (m : Info),
-        (((run c evs).execs[i]?).map fun e => (e.state, e.info)) = some (s, m) → isCompleted s = true →
-        (((step c (run c evs) ev).execs[i]?).map fun e => (e.state, e.info)) = some (s, m)) := by
-  intro h
-  have := h chain2 restop.dropLast (.stop 1 .SUCCESS "n") 1 .SUCCESS (.op "m") (by decide) (by decide)
-  revert this
+example : (((run chain2 restop).execs[1]?).map fun e => (e.state, e.info, e.sent)) = some (.SUCCESS, .op "m", 1) := by
   decide
 
 /-! ### "No new task is created in a stopped workflow afterwards" -/
@@ -131,94 +110,49 @@ theorem no_new_task_in_finished (c : Cfg) (w : World) (evs2 : List Event) (i : N
 
 /-! ### "every unfinished sub-workflow below a cancelled workflow becomes CANCELLED" -/
 
-/-- Every execution the recursion of stop_workflow(a, CANCELLED) reaches (a itself, and every unfinished
-    execution whose parent execution is reached) and that is unfinished becomes CANCELLED IN THE SAME
-    TRANSACTION, with the operator's message as state_info and result, accepted, and (if it has a parent
-    task) exactly one more result message registered. -/
-theorem cancel_reached (c : Cfg) (w : World) (a : Nat) (msg : String) (x : Nat) (e : Exec)
+/-- EVERY unfinished execution at or below the cancelled one — whatever the states of the executions in
+    between — becomes CANCELLED IN THE SAME TRANSACTION, with the operator's message as state_info and
+    result, accepted, and (if it has a parent task) exactly one result message registered. -/
+theorem cancel_subtree (c : Cfg) (w : World) (a : Nat) (msg : String) (x : Nat) (e : Exec)
     (ha : a < w.execs.length) (he : w.execs[x]? = some e)
-    (hr : reached w a w.execs.length x = true) (hu : isCompleted e.state = false) :
+    (hb : below w a w.execs.length x = true) (hu : isCompleted e.state = false) :
     ∃ e', (step c w (.stop a .CANCELLED msg)).execs[x]? = some e' ∧ e'.state = .CANCELLED ∧
       e'.info = .op msg ∧ e'.out = .result (.op msg) ∧ e'.accepted = true ∧
       e'.sent = (if e.parent.isSome then e.sent + 1 else e.sent) := by
-  have hh : hit w a x e = true := by simp [hit, hr, hu]
+  have hh : hit w a x e = true := by simp [hit, hb, hu]
   simp only [step, ha, if_true, cancelTx]
   exact ⟨cancelled msg e, by rw [List.getElem?_mapIdx, he]; simp [hh], rfl, rfl, rfl, rfl, rfl⟩
 
-/-- no finished execution has an unfinished child -/
-def Tidy (w : World) : Prop :=
-  ∀ (x p : Nat) (e : Exec), parentWf w x = some p → w.execs[x]? = some e → isCompleted e.state = false →
-    ∃ pe, w.execs[p]? = some pe ∧ isCompleted pe.state = false
+/-- after the cancel transaction everything at or below the cancelled execution is finished (in a
+    reachable state: the links are well formed) -/
+theorem cancel_finishes_subtree (c : Cfg) (evs : List Event) (a : Nat) (msg : String)
+    (ha : a < (run c evs).execs.length) :
+    BelowDone (step c (run c evs) (.stop a .CANCELLED msg)) a := by
+  intro f x e1 he1 hb
+  have hwf := (allJ_reachable c evs).2
+  have hg := good_step c (run c evs) (.stop a .CANCELLED msg)
+  have hlen : (step c (run c evs) (.stop a .CANCELLED msg)).execs.length = (run c evs).execs.length := by
+    simp [step, ha, cancelTx]
+  have hx : x < (run c evs).execs.length := by rw [← hlen]; exact lt_of_get he1
+  have he : (run c evs).execs[x]? = some (run c evs).execs[x] := List.getElem?_eq_getElem hx
+  have hb0 := below_len hwf a f x hx (below_old hg hwf a f x hx hb)
+  cases hc : isCompleted ((run c evs).execs[x]).state with
+  | true =>
+    obtain ⟨e2, he2, hf⟩ := hg.execs x _ he
+    rw [he1] at he2; cases he2
+    rw [(hf.2.2.2.2 hc).1]; exact hc
+  | false =>
+    obtain ⟨e2, he2, hs, _⟩ := cancel_subtree c _ a msg x _ ha he hb0 hc
+    rw [he1] at he2; cases he2
+    rw [hs]; decide
 
-theorem below_reached_of_tidy (w : World) (a : Nat) (ht : Tidy w) :
-    ∀ (f x : Nat), below w a f x = true →
-      (x = a ∨ ∃ e, w.execs[x]? = some e ∧ isCompleted e.state = false) → reached w a f x = true := by
-  intro f
-  induction f with
-  | zero => intro x hb; simp [below] at hb
-  | succ f ih =>
-    intro x hb hx
-    simp only [below, Bool.or_eq_true] at hb
-    simp only [reached, Bool.or_eq_true]
-    rcases hb with hb | hb
-    · exact Or.inl hb
-    · by_cases hxa : x = a
-      · exact Or.inl (by simp [hxa])
-      · right
-        rcases hx with hx | ⟨e, he, hu⟩
-        · exact absurd hx hxa
-        · cases hp : parentWf w x with
-          | none => simp [hp] at hb
-          | some p =>
-            simp only [hp] at hb
-            simp only [he, hu]
-            obtain ⟨pe, hpe, hpu⟩ := ht x p e hp he hu
-            simpa using ih p hb (Or.inr ⟨pe, hpe, hpu⟩)
-
-/-- "every unfinished sub-workflow below a cancelled workflow becomes CANCELLED": in a tree where no
-    finished execution has an unfinished child, EVERY unfinished execution below the cancelled one is
-    CANCELLED by the cancel transaction itself. -/
-theorem cancel_subtree_partial (c : Cfg) (w : World) (a : Nat) (msg : String) (x : Nat) (e : Exec)
-    (ht : Tidy w) (ha : a < w.execs.length) (he : w.execs[x]? = some e)
-    (hb : below w a w.execs.length x = true) (hu : isCompleted e.state = false) :
-    ∃ e', (step c w (.stop a .CANCELLED msg)).execs[x]? = some e' ∧ e'.state = .CANCELLED ∧
-      e'.info = .op msg := by
-  obtain ⟨e', h1, h2, h3, _⟩ := cancel_reached c w a msg x e ha he
-    (below_reached_of_tidy w a ht _ x hb (Or.inr ⟨e, he, hu⟩)) hu
-  exact ⟨e', h1, h2, h3⟩
-
-example : Tidy (run chain3 chain3Up) := by
-  intro x p e hp he hu
-  have hlen : (run chain3 chain3Up).execs.length = 3 := by decide
-  have hx : x < 3 := by
-    rcases Nat.lt_or_ge x 3 with h | h
-    · exact h
-    · rw [List.getElem?_eq_none (by rw [hlen]; exact h)] at he; simp at he
-  have : x = 0 ∨ x = 1 ∨ x = 2 := by omega
-  rcases this with rfl | rfl | rfl
-  · have h0 : parentWf (run chain3 chain3Up) 0 = none := by decide
-    rw [h0] at hp; cases hp
-  · have h0 : parentWf (run chain3 chain3Up) 1 = some 0 := by decide
-    rw [h0] at hp; cases hp; exact ⟨_, rfl, by decide⟩
-  · have h0 : parentWf (run chain3 chain3Up) 2 = some 1 := by decide
-    rw [h0] at hp; cases hp; exact ⟨_, rfl, by decide⟩
+/-- the former witness of `cancel_subtree_full_fails` (stop(ERROR) of the middle execution, cancel of the
+    root): the grandchild is cancelled now -/
+example : ((step chain3 (run chain3 (chain3Up ++ [.stop 1 .ERROR "m"])) (.stop 0 .CANCELLED "n")).execs.map (·.state)) =
+    [.CANCELLED, .ERROR, .CANCELLED] := by decide
 
 example : ((step chain3 (run chain3 chain3Up) (.stop 0 .CANCELLED "m")).execs.map (·.state)) =
     [.CANCELLED, .CANCELLED, .CANCELLED] := by decide
-
-/-- the same at full strength (every tree) is FALSE of the code: the recursion skips a child that is
-    already finished and with it everything below; after stop(ERROR) of the middle execution (which does
-    not recurse) the cancel of the root leaves the grandchild RUNNING.  Replayed on the real engine:
-    corpus/C11/tree_cancel_skips.json (known finding). -/
-theorem cancel_subtree_full_fails :
-    ¬ (∀ (c : Cfg) (evs : List Event) (a : Nat) (msg : String) (x : Nat) (s : St),
-        below (run c evs) a (run c evs).execs.length x = true → stateOf (run c evs) x = some s →
-        isCompleted s = false →
-        stateOf (step c (run c evs) (.stop a .CANCELLED msg)) x = some .CANCELLED) := by
-  intro h
-  have := h chain3 (chain3Up ++ [.stop 1 .ERROR "m"]) 0 "n" 2 .RUNNING (by decide) (by decide) (by decide)
-  revert this
-  decide
 
 /-! ### "... becomes CANCELLED together with its parent task" -/
 
@@ -255,71 +189,73 @@ example : ((run chain3 (chain3Up ++ [.stop 0 .CANCELLED "m", .deliver (.postSend
       .deliver (.postSendResult 1), .deliver (.rpcChildResult 1)])).tasks.map (·.state)) =
     [.CANCELLED, .CANCELLED, .IDLE] := by decide
 
-/-! ### "(nor, after a cancel, anywhere below it)" -/
+/-! ### "No new task is created ... (nor, after a cancel, anywhere below it)" -/
 
-/-- After the cancel transaction, no task row is ever created in an execution the cancel reached: they are
-    all finished (`cancel_reached`) and a finished execution gets no new task (`no_new_task_in_finished`). -/
-theorem no_new_task_in_cancelled_nodes_partial (c : Cfg) (w : World) (a : Nat) (msg : String) (x : Nat) (e : Exec)
-    (evs2 : List Event) (ha : a < w.execs.length) (he : w.execs[x]? = some e)
-    (hr : reached w a w.execs.length x = true) (t : Nat) (tk' : Task)
-    (ht : (evs2.foldl (step c) (step c w (.stop a .CANCELLED msg))).tasks[t]? = some tk') (hwf : tk'.wf = x) :
-    ∃ tk, w.tasks[t]? = some tk ∧ tk.wf = x := by
-  have htasks : (step c w (.stop a .CANCELLED msg)).tasks = w.tasks := by simp [step, ha, cancelTx]
-  cases hc : isCompleted e.state with
-  | false =>
-    obtain ⟨e', he', hs, _⟩ := cancel_reached c w a msg x e ha he hr hc
-    obtain ⟨tk, h1, h2, _⟩ := no_new_task_in_finished c _ evs2 x e' he' (by rw [hs]; decide) t tk' ht hwf
-    exact ⟨tk, by rw [← htasks]; exact h1, h2⟩
-  | true =>
-    obtain ⟨e', he', hf⟩ := (good_step c w (.stop a .CANCELLED msg)).execs x e he
-    obtain ⟨tk, h1, h2, _⟩ := no_new_task_in_finished c _ evs2 x e' he'
-      (by rw [(hf.2.2.2.2 hc).1]; exact hc) t tk' ht hwf
-    exact ⟨tk, by rw [← htasks]; exact h1, h2⟩
+/-- After the cancel of `a`, under EVERY continuation: every execution at or below `a` is finished, no
+    execution is ever created below `a`, and every task row that belongs to an execution at or below `a`
+    existed when `a` was cancelled.  (Reachable states; `f` = any recursion depth.) -/
+theorem no_new_task_below_cancelled (c : Cfg) (evs evs2 : List Event)
+    (a : Nat) (msg : String)
+    (ha : a < (run c evs).execs.length) (f t : Nat) (tk' : Task)
+    (ht : (evs2.foldl (step c) (step c (run c evs) (.stop a .CANCELLED msg))).tasks[t]? = some tk')
+    (hb : below (evs2.foldl (step c) (step c (run c evs) (.stop a .CANCELLED msg))) a f tk'.wf = true) :
+    tk'.wf < (run c evs).execs.length ∧ ∃ tk, (run c evs).tasks[t]? = some tk ∧ tk.wf = tk'.wf := by
+  have hlen : (step c (run c evs) (.stop a .CANCELLED msg)).execs.length = (run c evs).execs.length := by
+    simp [step, ha, cancelTx]
+  have htasks : (step c (run c evs) (.stop a .CANCELLED msg)).tasks = (run c evs).tasks := by
+    simp [step, ha, cancelTx]
+  have hwf1 : WF (step c (run c evs) (.stop a .CANCELLED msg)) :=
+    ((good_step c (run c evs) _).inv (allJ_reachable c evs)).2
+  have hd := cancel_finishes_subtree c evs a msg ha
+  have hg := good_run c (step c (run c evs) (.stop a .CANCELLED msg)) evs2
+  have hold := below_is_old hg hwf1 a hd (by rw [hlen]; exact ha) f tk'.wf hb
+  refine ⟨by rw [← hlen]; exact hold, ?_⟩
+  have he1 : (step c (run c evs) (.stop a .CANCELLED msg)).execs[tk'.wf]? = some _ := List.getElem?_eq_getElem hold
+  have hc := hd f tk'.wf _ he1 (below_old hg hwf1 a f tk'.wf hold hb)
+  obtain ⟨tk, h1, h2, _⟩ := no_new_task_in_finished c _ evs2 tk'.wf _ he1 hc t tk' ht rfl
+  exact ⟨tk, by rw [← htasks]; exact h1, h2⟩
 
-/-- "No new task is created ... (nor, after a cancel, anywhere below it)" at full strength is FALSE of the
-    code: `run_task` does not look at the workflow state, so a sub-workflow task that was still IDLE when its
-    workflow was cancelled (its start_task message is in flight) starts afterwards, creates a NEW child
-    execution below the cancelled workflow, and that child creates and runs its tasks.  Replayed on the real
-    engine: corpus/C11/tree_started_below_cancelled.json (known finding). -/
+/-- no execution is ever created below a cancelled one -/
+theorem no_new_execution_below_cancelled (c : Cfg) (evs evs2 : List Event)
+    (a : Nat) (msg : String)
+    (ha : a < (run c evs).execs.length) (f x : Nat)
+    (hb : below (evs2.foldl (step c) (step c (run c evs) (.stop a .CANCELLED msg))) a f x = true) :
+    x < (run c evs).execs.length := by
+  have hlen : (step c (run c evs) (.stop a .CANCELLED msg)).execs.length = (run c evs).execs.length := by
+    simp [step, ha, cancelTx]
+  have hwf1 : WF (step c (run c evs) (.stop a .CANCELLED msg)) :=
+    ((good_step c (run c evs) _).inv (allJ_reachable c evs)).2
+  have := below_is_old (good_run c _ evs2) hwf1 a (cancel_finishes_subtree c evs a msg ha)
+    (by rw [hlen]; exact ha) f x hb
+  rw [← hlen]; exact this
+
+/-- the former witness of `no_new_task_below_cancelled_full_fails`: the IDLE sub-workflow task whose
+    start_task arrives after the cancel does not start a child any more; it is cancelled with its workflow
+    (repo patch 19) -/
 def lateStart : List Event :=
-  [.startRoot 0, .deliver (.postStartTask 0), .stop 0 .CANCELLED "m", .deliver (.rpcStartTask 0)]
+  [.startRoot 0, .deliver (.postStartTask 0 true), .stop 0 .CANCELLED "m", .deliver (.rpcStartTask 0 true)]
 
-theorem no_new_task_below_cancelled_full_fails :
-    ¬ (∀ (c : Cfg) (evs evs2 : List Event) (a : Nat) (msg : String) (t i : Nat),
-        let w := step c (run c evs) (.stop a .CANCELLED msg)
-        let w' := evs2.foldl (step c) w
-        ((w'.tasks[t]?).map (·.wf)) = some i → below w' a w'.execs.length i = true →
-        (w.tasks[t]?).isSome = true) := by
-  intro h
-  have := h chain2 (lateStart.take 2) [.deliver (.rpcStartTask 0)] 0 "m" 1 1 (by decide) (by decide)
-  revert this
-  decide
-
-example : ((run chain2 lateStart).execs.map (·.state), (run chain2 lateStart).tasks.map (·.wf)) =
-    ([.CANCELLED, .RUNNING], [0, 1]) := by decide
+example : ((run chain2 lateStart).execs.map (·.state), (run chain2 lateStart).tasks.map fun t => (t.wf, t.state)) =
+    ([.CANCELLED], [(0, .CANCELLED)]) := by decide
 
 /-! ### "a cancelled or failed sub-workflow is reported to its parent exactly once" -/
 
-/-- In every reachable state a FAILED or CANCELLED sub-workflow has exactly one result message registered
-    for its parent, an unfinished one none, a succeeded one at least one. -/
+/-- In every reachable state EVERY finished sub-workflow (failed, cancelled or succeeded) has exactly one
+    result message registered for its parent, an unfinished one none. -/
 theorem reported_once (c : Cfg) (evs : List Event) (x : Nat) (e : Exec)
     (he : (run c evs).execs[x]? = some e) (hp : e.parent.isSome = true) :
-    (e.state = .ERROR ∨ e.state = .CANCELLED → e.sent = 1) ∧
-    (isCompleted e.state = false → e.sent = 0) ∧
-    (e.state = .SUCCESS → 1 ≤ e.sent) := by
-  obtain ⟨j1, j2, j3, _⟩ := allJ_reachable c evs x e he
-  exact ⟨fun h => by rw [j2 h, hp]; rfl, j1, fun h => (j3 h).2 hp⟩
+    (isCompleted e.state = true → e.sent = 1) ∧ (isCompleted e.state = false → e.sent = 0) := by
+  obtain ⟨j1, j2, _⟩ := (allJ_reachable c evs).1 x e he
+  exact ⟨fun h => by rw [j2 h, hp]; rfl, j1⟩
 
 example : (((run chain3 (chain3Up ++ [.stop 1 .ERROR "m"])).execs.map (·.sent))) = [0, 1, 0] := by decide
 
-/-- "exactly once" for EVERY finished child is false: a second stop(SUCCESS) reports a SUCCESS child again. -/
-theorem reported_once_full_fails :
-    ¬ (∀ (c : Cfg) (evs : List Event) (x : Nat) (s : St) (n : Nat),
-        (((run c evs).execs[x]?).map fun e => (e.state, e.sent)) = some (s, n) → isCompleted s = true →
-        (((run c evs).execs[x]?).map fun e => e.parent.isSome) = some true → n = 1) := by
-  intro h
-  have := h chain2 restop 1 .SUCCESS 2 (by decide) (by decide) (by decide)
-  revert this
-  decide
+/-- a root execution (no parent task) never registers a result message -/
+theorem root_reports_nothing (c : Cfg) (evs : List Event) (x : Nat) (e : Exec)
+    (he : (run c evs).execs[x]? = some e) (hp : e.parent = none) : e.sent = 0 := by
+  obtain ⟨j1, j2, _⟩ := (allJ_reachable c evs).1 x e he
+  cases hc : isCompleted e.state with
+  | false => exact j1 hc
+  | true => rw [j2 hc, hp]; rfl
 
 end Mistral.Props.C11Tree
